@@ -67,10 +67,10 @@ def model_failing(builders, results, work, tag):
     return sorted(bad)
 
 
-def coq_classes(terms, typ, fn, work, tag, shard=120):
+def coq_classes(terms, typ, fn, work, tag, shard=120, header=None):
     """fn returns one nat per case"""
     out = [None] * len(terms)
-    for idx, lst in coq_eval_indices(terms, typ, fn, work, tag, shard):
+    for idx, lst in coq_eval_indices(terms, typ, fn, work, tag, shard, header=header):
         if len(lst) != len(idx):
             raise HarnessError("class list has wrong length")
         for i, c in zip(idx, lst):
